@@ -4,7 +4,7 @@ import "strings"
 
 func init() {
 	register("C04",
-		"Decides 'skipping a value consumes exactly the bytes decoding it would' at the level of wire-token languages, for all 27 codec types at once: the automaton extracted from Skip accepts exactly the token sequences the automaton of Read accepts (WA-RS), size-prefixed blocks are handled as the specification lays them out (WA-NEG), Skip accepts every framing of the specification including the byte-size fast path (WA-SPEC-S), New/Omit consume nothing (WA-NEWPURE), and the record reader skips exactly the fields the builder marked absent, with the very sentinel it tests, decoding all others at their own offset (BT-SENTINEL). "+
+		"Decides 'skipping a value consumes exactly the bytes decoding it would' at the level of wire-token languages, for all 27 codec types at once: the automaton extracted from Skip accepts exactly the token sequences the automaton of Read accepts (WA-RS), size-prefixed blocks are handled as the specification lays them out (WA-NEG), Skip accepts every framing of the specification including the byte-size fast path (WA-SPEC-S), New/Omit consume nothing (WA-NEWPURE), and the record reader skips exactly the fields the builder marked absent, with the very sentinel it tests, decoding all others at their own offset (BT-SENTINEL).  A record field is bound to the offset and type of the struct field of that name in the target type itself, so adding or permuting target fields cannot move another field's store (BT-REC, SG-NAMES). "+
 			"Not decided: that projected and full decodes agree on values; feasibility of individual paths (the comparison is between regular languages of tokens).",
 		func(c *Ctx) {
 			ruleWARS(c)
@@ -14,10 +14,12 @@ func init() {
 			ruleBTSentinel(c)
 			ruleRecList(c)
 			ruleBTPure(c)
+			ruleBTRec(c)
+			ruleSGNames(c)
 		})
 
 	register("C03",
-		"Decides framing-level necessary conditions of C03: every framing the Avro 1.8 specification allows for a schema type — any number of array/map blocks, with or without byte sizes, selector then branch with null in either position — is accepted by the Read and the Skip automaton of every codec built for that type (WA-SPEC-R, WA-SPEC-S, WA-NEG); the nullable-union codecs take the value branch's index from the schema and compare the decoded selector with it (BT-NONNULL); integer destinations are written only within their exact range (RC-RANGE) and every (schema type, Go kind) pair is width-exact or rejected (BT-WIDTH); reader and writer agree on the three compression codec names (CT-AGREE); each file block decodes exactly its declared count (OD-LOOP). "+
+		"Decides framing-level necessary conditions of C03: every framing the Avro 1.8 specification allows for a schema type — any number of array/map blocks, with or without byte sizes, selector then branch with null in either position — is accepted by the Read and the Skip automaton of every codec built for that type (WA-SPEC-R, WA-SPEC-S, WA-NEG); the nullable-union codecs take the value branch's index from the schema and compare the decoded selector with it (BT-NONNULL); integer destinations are written only within their exact range (RC-RANGE) and every (schema type, Go kind) pair is width-exact or rejected (BT-WIDTH); reader and writer agree on the three compression codec names (CT-AGREE); each file block decodes exactly its declared count (OD-LOOP).  The file reader zeroes the destination with its own type before every record, so a null branch leaves the zero value and not the previous record (OD-CLEAR). "+
 			"Not decided: decoded values.",
 		func(c *Ctx) {
 			ruleWASpec(c, "RS")
@@ -30,10 +32,11 @@ func init() {
 			ruleODLoop(c, s)
 			ruleDstFresh(c)
 			ruleALStr(c)
+			ruleODClear(c, s)
 		})
 
 	register("C13",
-		"Decides necessary conditions of C13 for caller-supplied schemas: a nullable union writes exactly one selector, the null branch's index 1-nonNull when the value is omitted and nonNull otherwise, and exactly then the value (WA-SEL), with nonNull derived from the schema for either null position (BT-NONNULL); what the union codecs write is accepted by their own Read and is a specification encoding (WA-WR, WA-SPEC-W); configuration that drives Read drives Write (E-FU); &x handed between codecs has the callee's width (PC-ARG); the full schema-type x Go-kind table is width-exact (BT-WIDTH); logical-type multipliers and units agree (TS-MULT, TS-UNIT). "+
+		"Decides necessary conditions of C13 for caller-supplied schemas: a nullable union writes exactly one selector, the null branch's index 1-nonNull when the value is omitted and nonNull otherwise, and exactly then the value (WA-SEL), with nonNull derived from the schema for either null position (BT-NONNULL); what the union codecs write is accepted by their own Read and is a specification encoding (WA-WR, WA-SPEC-W); configuration that drives Read drives Write (E-FU); &x handed between codecs has the callee's width (PC-ARG); the full schema-type x Go-kind table is width-exact (BT-WIDTH); logical-type multipliers and units agree (TS-MULT, TS-UNIT).  Omit is true only on a zero test of the value at its pointer, so a non-zero value (a pointer to zero, the epoch) is never written as null (OM-ZERO). "+
 			"Not decided: inversion for all values.",
 		func(c *Ctx) {
 			ruleWASel(c)
@@ -46,6 +49,7 @@ func init() {
 			ruleBTWidth(c, true)
 			ruleTSMult(c)
 			ruleTSNoDur(c)
+			ruleOMZero(c)
 		})
 }
 
@@ -87,7 +91,7 @@ func init() {
 
 func init() {
 	register("C01",
-		"Decides necessary conditions of the encode-then-read round trip, writer against reader and schema generator against codec builder: everything each codec's Write emits is accepted by its own Read (WA-WR); length prefixes and item counts are those of the data written (WA-LEN, WA-CNT); on the generated-schema path every Go kind gets a codec of exactly its width (BT-WIDTH) and Read, Write and Omit of one codec agree on what the pointer is (PC-METH); pointers are always wrapped in a union because the pointer codec writes nothing for nil (BT-PTRWRAP); schema generation and codec construction take field names and the omit flag from the same helpers (SG-NAMES); the schema in the header is the one the codec was built from (ENC-SAME); the target is cleared before each record (OD-CLEAR). "+
+		"Decides necessary conditions of the encode-then-read round trip, writer against reader and schema generator against codec builder: everything each codec's Write emits is accepted by its own Read (WA-WR); length prefixes and item counts are those of the data written (WA-LEN, WA-CNT); on the generated-schema path every Go kind gets a codec of exactly its width (BT-WIDTH) and Read, Write and Omit of one codec agree on what the pointer is (PC-METH); pointers are always wrapped in a union because the pointer codec writes nothing for nil (BT-PTRWRAP); schema generation and codec construction take field names and the omit flag from the same helpers (SG-NAMES); the schema in the header is the one the codec was built from (ENC-SAME); the target is cleared before each record (OD-CLEAR).  Added after seed round 5: varints are written only by the standard encoder (VAR-STD) and Omit is true only on a zero test of the value (OM-ZERO). "+
 			"Not decided: equality of values for all types, values and configurations.",
 		func(c *Ctx) {
 			ruleWAWR(c, nil, 27)
@@ -101,10 +105,12 @@ func init() {
 			ruleDstFresh(c)
 			ruleALBump(c)
 			ruleALStr(c)
+			ruleVarStd(c)
+			ruleOMZero(c)
 		})
 
 	register("C02",
-		"Decides necessary conditions of 'valid Avro for an independent reader' against an oracle that is not the library's own reader: the block and header layout (OD-BLOCK, OD-HDR), the snappy trailer (CRC-BE), and for every codec type that what Write emits lies in the language the Avro 1.8 specification defines for the schema types the codec is built for (WA-SPEC-W); a nullable union writes exactly one selector with the right index and exactly the selected branch (WA-SEL); counts and length prefixes are those of the data (WA-CNT, WA-LEN); the omit flag reaches the codec whose Omit the union consults (BT-OMIT) and Omit is true only for nil/invalid/empty-under-omitempty (OM-SHAPE); Read/Write/Omit agree on the pointer (PC-METH); the embedded schema is the codec's own and is balanced JSON with the right keys (ENC-SAME, JS-*); pointers are wrapped in unions (BT-PTRWRAP). "+
+		"Decides necessary conditions of 'valid Avro for an independent reader' against an oracle that is not the library's own reader: the block and header layout (OD-BLOCK, OD-HDR), the snappy trailer (CRC-BE), and for every codec type that what Write emits lies in the language the Avro 1.8 specification defines for the schema types the codec is built for (WA-SPEC-W); a nullable union writes exactly one selector with the right index and exactly the selected branch (WA-SEL); counts and length prefixes are those of the data (WA-CNT, WA-LEN); the omit flag reaches the codec whose Omit the union consults (BT-OMIT) and Omit is true only for nil/invalid/empty-under-omitempty (OM-SHAPE); Read/Write/Omit agree on the pointer (PC-METH); the embedded schema is the codec's own and is balanced JSON with the right keys (ENC-SAME, JS-*); pointers are wrapped in unions (BT-PTRWRAP).  Omit is true only on a zero test of the value at its pointer (OM-ZERO). "+
 			"Not decided: agreement of values with an external decoder.",
 		func(c *Ctx) {
 			ruleODBlock(c)
@@ -122,6 +128,7 @@ func init() {
 			ruleVarStd(c)
 			ruleCPFresh(c, s)
 			ruleBTPtrWrap(c)
+			ruleOMZero(c)
 		})
 
 	register("C17",
@@ -137,7 +144,7 @@ func init() {
 
 func init() {
 	register("C06",
-		"Decides enumerated preconditions of 'no panic, no runaway allocation' over the reading call graph: every length, count or index decoded from the input (taint from ReadBuf.Varint / binary.ReadVarint, through arithmetic, phis and into module callees) reaches an allocation, slice bound or index only under a dominating non-negativity check (TL-LOW) and upper comparison (TL-BOUND), allocations additionally under a bound tied to the input actually present (TL-UP), and no guard adds to a still-unbounded decoded length (TL-OVF); constant and range-index offsets into strings/slices in the timestamp parser and the decompressors lie within an established minimum length (TL-IDX); the schema's optional object part is dereferenced only under a nil test (NIL-OBJ); no nil decompressor (NIL-IFACE); explicit panics are dead per instantiation and unchecked assertions justified (PANIC-REACH). "+
+		"Decides enumerated preconditions of 'no panic, no runaway allocation' over the reading call graph: every length, count or index decoded from the input (taint from ReadBuf.Varint / binary.ReadVarint, through arithmetic, phis and into module callees) reaches an allocation, slice bound or index only under a dominating non-negativity check (TL-LOW) and upper comparison (TL-BOUND), allocations additionally under a bound tied to the input actually present (TL-UP), and no guard adds to a still-unbounded decoded length (TL-OVF); constant and range-index offsets into strings/slices in the timestamp parser and the decompressors lie within an established minimum length (TL-IDX); the schema's optional object part is dereferenced only under a nil test (NIL-OBJ); no nil decompressor (NIL-IFACE); explicit panics are dead per instantiation and unchecked assertions justified (PANIC-REACH).  A codec returned by a builder never carries a nil sub-codec (BT-SUBNIL). "+
 			"Not decided: termination of count-controlled loops whose body consumes no input, panics inside third-party decoders, stack depth on deeply nested schemas.",
 		func(c *Ctx) {
 			ruleTL(c)
@@ -145,6 +152,7 @@ func init() {
 			ruleTLIdx(c)
 			ruleNilObj(c)
 			rulePanicReach(c)
+			ruleBTSubNil(c)
 			s := findReadFile(c.P)
 			c.Rule("NIL-IFACE", "no nil interface value can reach the receiver of the decompress call", 1)
 			if s.decompress != nil {
